@@ -19,9 +19,18 @@ NPATHS = 6            # 0 vorbis_encode_init; 1 setup_managed + setup_init; 2..5
 def cases(tier):
     """-> [(case line, meta)]; the pipeline (analysis_init, headerout, headerin, encode ns samples) runs on every stride-th successful set-up of a line"""
     out = []
+    if tier != 'quick':
+        # thorough: the quick members first (they always run), then the members only thorough has (run within a time slice)
+        first = cases('quick')
+        have = {(m['path'], m['ch'], m['rate']) for l, m in first}
+        out = list(first)
+    else:
+        have = set()
     for path in range(NPATHS):
         for ch in CH[tier]:
             for rate in RATES[tier]:
+                if (path, ch, rate) in have:
+                    continue
                 if ch > 8:
                     # >= 27 channels: an encode costs 0.03 .. 0.2 s and more; header stage + 1 sample on a thinned subset of the one-step path
                     pl, ns, stride = (2, 1, 64 if tier == 'quick' else 32) if path == 0 else (0, 0, 1)
